@@ -38,18 +38,22 @@ CLAIMED = {
              "python generator ground truth as value oracle; std::istream modelled (Model/Window.lean).",
         technique="Lean 4 proof (structural induction over CBOR syntax) + differential correspondence", design="§4 C07"),
     "C01": dict(
-        text="Lean 4: file_roundtrip - over one generic interpreter of the ~60 struct write/read functions (Model.Schema) instantiated with the "
-             "preamble and block schemas (keys and member widths regenerated from the source), a file laid out as the exporter lays it out is "
-             "read back by the model of CdnsReader as exactly the preamble and blocks written, nothing left over (every member, table entry and "
-             "record, integers over their whole width, strings bit for bit), at any window offset (C05.runW_refines); file_roundtrip_checked "
-             "makes the theorem's domain executable. Plus: code keys/hint bits = RFC 8618 (keys_match_rfc), time offsets (C17), encoder (C06), "
-             "exporter conservation (C12). Tie to the code on every output of every session: model reader dump = library reader dump, model "
-             "writer bytes = library bytes, value read lies in the theorem's domain (blk driver); and the three-way differential - library "
-             "reader, independent Lean RFC 8618 reader (Spec.Cdns.interpret) and the reference expectation (records buffered, RFC projection).",
-        note="Partial proof: the step from generic records to raw block values (hint projection, table building) is tied by correspondence "
-             "(reference exporter + independent reader), not modelled in Lean. Trusted: Model/Structs.lean schema table (checked by the blk "
-             "correspondence and block_widths_match), RFC transcription, tools/refexp.py + cdnsgen.py (spec oracle), harness/file.cpp.",
-        technique="Lean 4 proof (generic schema round trip, file level) + model/implementation correspondence on every output + three-way differential", design="§4 C01"),
+        text="Lean 4, record level: records_resolve_to_projection / malformed_messages_read_back - over the block-building model "
+             "(Model.Builder: hint guards, nine find-or-append tables, lists) and the model of the reader's index resolution (Model.Resolve), "
+             "for EVERY record sequence and EVERY hint masks, resolving the stored query/responses (malformed messages) of the block built "
+             "yields in order exactly the hint projections of the records buffered - every hint-enabled member equal, addresses/names/RDATA "
+             "byte for byte, lists element by element - and stored_iff_nonempty. Lean 4, byte level: file_roundtrip - over one generic "
+             "interpreter of the ~60 struct write/read functions (Model.Schema + preamble/block schemas regenerated from the source) a file "
+             "laid out as the exporter lays it out is read back as exactly the preamble and raw blocks written, nothing left over, at any "
+             "window offset (C05.runW_refines); built_block_roundtrip composes the two. Plus keys/hint bits = RFC 8618, time offsets (C17), "
+             "encoder (C06), exporter conservation (C12). Tie to the code on every session: model block bytes = library block bytes (bld), "
+             "model reader dump = library reader dump and model writer bytes = library bytes (blk), Lean projection = the records the library "
+             "reader returns (prjd); and the three-way differential with the independent Lean RFC 8618 reader and the reference expectation.",
+        note="Partial proof: address-event totals and per-block statistics are decided by correspondence (reference exporter), and the "
+             "composition byte level -> record level passes through the executable domain check conformsB (evaluated on every built block) "
+             "rather than a proof that every built block conforms. Trusted: Model/Builder.lean, Model/Resolve.lean, Model/Structs.lean "
+             "(hand-written; tied by bld/blk/prjd correspondences), RFC transcription, tools/refexp.py + cdnsgen.py, harness/file.cpp.",
+        technique="Lean 4 proof (record-level export->read over builder + resolver models; generic schema round trip at byte level) + byte-exact model/implementation correspondence + three-way differential", design="§4 C01"),
     "C02": dict(
         text="Lean 4, framing (exporter model, every call history): an output without blocks gets zero bytes, otherwise header once + blocks + "
              "exactly one break when closed (output_shape), preamble covers the blocks' parameter sets under the documented duty (params_cover), "
